@@ -157,6 +157,8 @@ def run_sequences(job):
                                      sequence=x.sequence, signatures=sigs)
                     for o in t.outputs:
                         t2.add_output(o.value, lock_script=o.lock_script)
+                    # (the constructor reads version 0 / locktime 0 as "not given"; the rebuilt transaction is the same transaction)
+                    t2.version, t2.version_int, t2.locktime = t.version, t.version_int, t.locktime
                     t = t2
                 elif a['op'] == 'tamper' and a['pos']:
                     # change the field in the raw bytes (pos selects the new value), then parse
